@@ -4,6 +4,7 @@ from ..rules import liveness as L
 from ..rules import shutdown as S
 from ..rules import broken as B
 from ..rules import tracker as T
+from ..rules import scenario as SC
 
 EXPLANATION = (
     "Static analysis (resource pairing on all normal exits + reachability). Decides: the wake-up close() closes both ends; "
@@ -22,9 +23,12 @@ def run(e, R, tier):
         P.r_leak,
         L.r_wake,
         L.r_mgr_exit,
+        B.r_mgr_total,
+        SC.r_scn_manager,
         S.r_shutdown_seq,
         B.r_kill_tree,
         P.r_spawn_fresh,
         P.r_exitcode,
         T.r_relaunch,
+        SC.r_scn_wakeprim,
     ])
